@@ -28,7 +28,8 @@ RULE = (
     "0..200; every definite length form (minimal, and 1-4 length octets where the length fits) "
     "chosen independently at each level: value, name, binding, list, integer fields, PDU, "
     "community, scoped PDU, header, security parameters, message; request-id over the "
-    "Integer32 range and error-index over Integer32 with error-status 0; v1, v2c and five v3 "
+    "Integer32 range and error-index over Integer32 with error-status 0; agents announcing "
+    "msgMaxSize 484 / 1472 / 65507 / 2^31-1; v1, v2c and five v3 "
     "levels. Oracle: result types/values == what vf.ber reads from the same response bytes. "
     "Second half: bytes(Message.decode(x)), bytes(ScopedPDU.decode(x)), "
     "bytes(USMSecurityParameters.decode(x)), bytes(decoded PDU) re-read by vf.ber carry the "
@@ -181,11 +182,11 @@ def reencode_checks(R, case, datagram):
         R.mon["reencode_pdu_ok"] += 1
 
 
-def run_case(R, level, values, forms, rid=None, err_index=0, label="gen"):
+def run_case(R, level, values, forms, rid=None, err_index=0, label="gen", max_size=65507):
     v1 = level == "v1"
     oids = [(1, 3, 6, 1, 4, 1, 4242, 1, i) for i in range(len(values))]
     db = dict(zip(oids, values))
-    kw = {"resp_forms": forms, "v3_resp_forms": forms}
+    kw = {"resp_forms": forms, "v3_resp_forms": forms, "max_size": max_size}
     saved = env.CLOCK.now
     if rid is not None:
         # before the world exists: the agent's engine clock is the same clock
@@ -199,7 +200,7 @@ def run_case(R, level, values, forms, rid=None, err_index=0, label="gen"):
             out["error_index"] = err_index
             return out
         w.agent.pdu_hook = hook
-    case = {"level": level, "values": rig.jsonable([[v[0], v[1]] for v in values]), "forms": forms, "rid": rid, "err_index": err_index, "label": label}
+    case = {"level": level, "values": rig.jsonable([[v[0], v[1]] for v in values]), "forms": forms, "rid": rid, "err_index": err_index, "label": label, "max_size": max_size}
     try:
         try:
             res = rig.outcome(lambda: drive(w.client.multiget([OID(o) for o in oids])))
@@ -210,7 +211,7 @@ def run_case(R, level, values, forms, rid=None, err_index=0, label="gen"):
     kinds = tuple(sorted({size_class(v) for v in values}))
     fkey = None if forms is None else tuple(sorted((k, v) for k, v in forms.items() if v is not None))
     n = len(values)
-    fp = ("c06", level, kinds, fkey, 0 if n == 0 else 1 if n == 1 else 2 if n < 20 else 3, rid is not None, err_index != 0)
+    fp = ("c06", level, kinds, fkey, 0 if n == 0 else 1 if n == 1 else 2 if n < 20 else 3, rid is not None, err_index != 0, max_size)
     resp = w.seam.responses[-1] if w.seam.responses else None
     R.case(fp, resp is not None, sample={**case, "response": resp.hex()[:300] if resp else None} if R.evaluations % 499 == 0 else None)
     if resp is None:
@@ -281,7 +282,9 @@ def run(R):
             rid = rng.choice((0, 1, 127, 128, 255, 256, 65535, 65536, 2**24 - 1, 2**24, 2**31 - 1))
         elif r < 0.3:
             err_index = rng.choice((1, 2, 127, 128, 255, 256, 2**31 - 1, -1, -(2**31)))
-        run_case(R, level, values, forms, rid, err_index)
+        # what the agent announces as ITS receive limit says nothing about its responses
+        max_size = rng.choice((65507, 65507, 484, 1472, 2**31 - 1))
+        run_case(R, level, values, forms, rid, err_index, max_size=max_size)
     # one value of every kind through every uniform form, every level
     if R.shard == 0:
         rng = R.rng("grid")
@@ -309,4 +312,4 @@ def replay(R, v):
         return x
 
     values = [(k, fix(val)) for k, val in c["values"]]
-    run_case(R, c["level"], values, c["forms"], c["rid"], c["err_index"], "replay")
+    run_case(R, c["level"], values, c["forms"], c["rid"], c["err_index"], "replay", max_size=c.get("max_size", 65507))
